@@ -236,15 +236,22 @@ def _prune(prefix, keep):
 def run_translator():
     """Regenerate lean/HtpModel/Gen/Tables.lean and Footprint.lean from the current sources.
     Files are rewritten only when their content changes (keeps lake incremental)."""
-    hsh = tree_hash([os.path.join(EXTRACT, "tabulate.c"), os.path.join(EXTRACT, "extract.py")])
+    hsh = tree_hash([os.path.join(EXTRACT, "tabulate.c"), os.path.join(EXTRACT, "extract.py"), os.path.join(EXTRACT, "ctrans.py")])
     stamp = os.path.join(BUILD, "translator_" + hsh)
     with Lock("translator"):
         if os.path.exists(stamp) and os.path.exists(os.path.join(LEAN, "HtpModel", "Gen", "Tables.lean")) \
-                and os.path.exists(os.path.join(LEAN, "HtpModel", "Gen", "Footprint.lean")):
+                and os.path.exists(os.path.join(LEAN, "HtpModel", "Gen", "Footprint.lean")) \
+                and os.path.exists(os.path.join(LEAN, "HtpModel", "Gen", "CFuns.lean")):
             return {"hash": hsh, "cached": True}
         r = run([sys.executable, os.path.join(EXTRACT, "extract.py")])
         if r.returncode != 0:
             raise BuildError("translator failed:\n" + r.stdout[-2000:] + r.stderr[-3000:])
+        # control-flow translator: selected leaf functions -> Gen/CFuns.lean (a function it can no longer translate is listed in
+        # `untranslated` there, and the theorem CFuns.all_translated then fails by name)
+        r2 = run([sys.executable, os.path.join(EXTRACT, "ctrans.py"), REPO, os.path.join(LEAN, "HtpModel", "Gen", "CFuns.lean")])
+        if r2.returncode != 0:
+            raise BuildError("control-flow translator failed:\n" + r2.stdout[-2000:] + r2.stderr[-3000:])
+        r.stdout += r2.stdout
         for old in glob.glob(os.path.join(BUILD, "translator_*")):
             os.unlink(old)
         open(stamp, "w").write(r.stdout)
